@@ -79,6 +79,7 @@ pub enum Out {
     Count(u64),
     Ddl,
     Unit,
+    Info(Value),
     Err { class: String, text: String },
     Panic(String),
     Hang,
@@ -91,13 +92,14 @@ impl Out {
             Out::Count(n) => json!({"k": "count", "n": n}),
             Out::Ddl => json!({"k": "ddl"}),
             Out::Unit => json!({"k": "unit"}),
+            Out::Info(v) => json!({"k": "info", "v": v}),
             Out::Err { class, text } => json!({"k": "err", "class": class, "text": text}),
             Out::Panic(loc) => json!({"k": "panic", "at": loc}),
             Out::Hang => json!({"k": "hang"}),
         }
     }
     pub fn is_ok(&self) -> bool {
-        matches!(self, Out::Rows(_) | Out::Count(_) | Out::Ddl | Out::Unit)
+        matches!(self, Out::Rows(_) | Out::Count(_) | Out::Ddl | Out::Unit | Out::Info(_))
     }
     pub fn is_err(&self) -> bool {
         matches!(self, Out::Err { .. })
@@ -235,6 +237,7 @@ impl Eng {
     pub fn vacuum(&mut self) -> Out { self.call(Cmd::Vacuum) }
     pub fn analyze(&mut self) -> Out { self.call(Cmd::Analyze) }
     pub fn explain(&mut self, sql: &str) -> Out { self.call(Cmd::Explain(sql.to_string())) }
+    pub fn audit(&mut self) -> Out { self.with(|db| Out::Info(crate::audit::run(db))) }
     pub fn with(&mut self, f: impl FnOnce(&Database) -> Out + Send + 'static) -> Out { self.call(Cmd::With(Box::new(f))) }
 }
 
